@@ -23,7 +23,7 @@ FORMATS = ("ebyte", "usb", "yd")
 
 def shards(tier, seed):
     out = []
-    reps = 1 if tier == "quick" else 12
+    reps = 2 if tier == "quick" else 12
     for fmt in FORMATS:
         for rot in range(8):
             out.append({"name": f"stub-{fmt}-rot{rot}", "kind": "stub", "fmt": fmt, "rot": rot, "reps": reps, "seed": seed})
@@ -181,7 +181,7 @@ def run_public(spec, acc):
     rng = gen.rng_for(spec["seed"], ID, spec["name"])
     defs = [d for d in dbx.defs if d.encodable and d.type == "Fast"]
     defs = [d for k, d in enumerate(defs) if k % spec["n"] == spec["i"]]
-    n_payloads = 6 if spec["tier"] == "quick" else 120
+    n_payloads = 15 if spec["tier"] == "quick" else 120
     src_dec = NMEA2000Decoder()
     for d in defs:
         nb = d.length if d.length is not None else (d.total_bits() + 7) // 8
